@@ -33,6 +33,37 @@ def AXIOMS(c):
             SIN(PI / 2) == 1]
 
 
+def history_cache():
+    """self._cache after an ARBITRARY call history (the property quantifies over histories): any key may or may not be present.  A present
+    'orbit' entry is a KeplerOrbit template whose elements are arbitrary (get_orbit overwrites every one of them); any other present key holds an
+    arbitrary, unknown value.  Entries written during the call are known."""
+    memo_has, memo_val = {}, {}
+
+    def mk(known):
+        o = Obj("dict-after-any-history", {"known": known})
+
+        def contains(item, o=o):
+            if item in o.fields["known"].vals:
+                return True
+            if item not in memo_has:
+                memo_has[item] = z3.Bool(f"cache_has_{item}")
+            return memo_has[item]
+
+        def getitem(ex, path, recv, key, node):
+            kn = recv.fields["known"]
+            if key in kn.vals:
+                return kn.vals[key]
+            if key not in memo_val:
+                memo_val[key] = Obj("KeplerOrbit", {"elements": Obj("KeplerElements", {})}) if key == "orbit" else Opaque(f"stale-cache-entry:{key}")
+            return memo_val[key]
+
+        def setitem(ex, path, recv, key, value, node):
+            return mk(recv.fields["known"].set(key, value))
+        o.fields.update({"__contains__": contains, "__getitem__": getitem, "__setitem__": setitem})
+        return o
+    return mk(PyDict())
+
+
 def samples_self(poly_trend, n_offsets, n=None):
     def build(ex, path, name):
         cols = [("P", A.sym_unit("P_unit", TIME)), ("e", A.U_ONE), ("omega", A.sym_unit("omega_unit", ANGLE)), ("M0", A.sym_unit("M0_unit", ANGLE)),
@@ -51,7 +82,7 @@ def samples_self(poly_trend, n_offsets, n=None):
         k = z3.Int(fresh_name("k"))
         Pv, ev = tbl.fields["cols"].vals["P"].fields["value"], tbl.fields["cols"].vals["e"].fields["value"]
         path.assume(q_forall([k], b_and(0 <= k, k < nn), b_and(Pv.at(k) > 0, ev.at(k) >= 0, ev.at(k) < 1), pats=[Pv.at(k)]))
-        return Obj("JokerSamples", {"tbl": tbl, "_cache": PyDict(), "__len__": nn, "__qualclass__": "thejoker.samples.JokerSamples"}, ident="self")
+        return Obj("JokerSamples", {"tbl": tbl, "_cache": history_cache(), "__len__": nn, "__qualclass__": "thejoker.samples.JokerSamples"}, ident="self")
     return build
 
 
@@ -117,6 +148,9 @@ _L["astropy.units.yr"] = A.U_YEAR
 @model("si", doc="spec: physical value of a quantity (value x unit scale)")
 def _si(ex, path, args, kwargs, node, fn):
     q = args[0]
+    if isinstance(q, Opaque) and "stale-cache-entry" in q.tag:
+        # a value left in self._cache by an earlier call is arbitrary: so is its physical value
+        return z3.Real("physical_value_of_" + q.tag.split("stale-cache-entry:")[1].split("[")[0].split(".")[0] + "_left_in_cache_by_an_earlier_call")
     return to_z3(q.fields["value"], "real") * to_z3(q.fields["unit"].fields["scale"], "real")
 
 
@@ -275,3 +309,14 @@ for _c in lnlike:
 CONTRACTS += lnlike
 CALLEES.update({S + "orbits": orbits_prop, "JokerSamples.orbits": orbits_prop})
 HOOKS["inline"] = set(HOOKS["inline"]) | {"thejoker.likelihood_helpers.ln_normal"}
+
+# ---- the data's reference epoch: the number the kernel uses (data._t_ref_bmjd, t0 of the Keplerian column and of the trend) is the TCB MJD of the
+# Time object that the samples inherit (data.t_ref -> samples.t_ref -> get_orbit's t0), for a reference epoch given in ANY time scale
+from . import c15 as _C15   # noqa: E402
+
+_src = [c for c in _C15.init_contracts if c.cases[0]["_name"] == "t=Time,err=1d,clean=true,t_ref=Time"][0]
+ref_epoch = Contract(_C15.D + "__init__", PROPERTY, params=_src.params, cases=[dict(_src.cases[0], _name="t_ref given, any time scale")], defs=_src.defs,
+                     ensures={"kernel-epoch-number-and-samples-t_ref-are-the-same-instant": "self._t_ref_bmjd == self.t_ref.tcb.mjd and self.t_ref is t_ref"})
+ref_epoch.callees = dict(_C15.CALLEES)
+ref_epoch.lib = dict(_C15.LIB)
+CONTRACTS += [ref_epoch]
